@@ -1,6 +1,6 @@
 PROP = dict(level="model_checking", parts=[
     cxx("ring", "C05_ring", ninja=CSG, shards=(12, 14), timeout=dict(quick=300, thorough=1500)),
-    cxx("tools", "C05_tools", ninja=CSG + ["csg_stat", "csg_orientcorr"], make=["libvsched_preload.so"], shards=(6, 12), timeout=dict(quick=300, thorough=1500)),
+    cxx("tools", "C05_tools", ninja=CSG + ["csg_stat", "csg_orientcorr", "csg_reupdate"], make=["libvsched_preload.so"], shards=(6, 12), timeout=dict(quick=300, thorough=1500)),
     cxx("race", "C05_race", ninja=CSG + ["tsan:votca_tools", "tsan:votca_csg"], shards=(6, 6), tiers=["thorough"],
         env={"LD_LIBRARY_PATH": "{BUILD}/votca-tsan/csg/src/libcsg:{BUILD}/votca-tsan/tools/src/libtools",
              "TSAN_OPTIONS": "exitcode=66 halt_on_error=0 report_signal_unsafe=0 report_mutex_bugs=0 report_destroy_locked=0 history_size=4"}, timeout=dict(thorough=1500)),
